@@ -720,6 +720,61 @@ func narrowExempt(p *Prog, cv *ssa.Convert) string {
 			return "index below len(values) of an enum values table, len(values) <= 255 by R34"
 		}
 	}
+	// enumVal(len(acc)) where acc starts empty and grows by at most one element per iteration of a range over an
+	// enum values table: len(acc) <= key of the range <= 254
+	if call, ok := cv.X.(*ssa.Call); ok && builtinName(call) == "len" {
+		for _, li := range loopsOf(cv.Parent()) {
+			if li.base == nil || !inLoop(li, cv.Block()) || !valuesBounded(p, li.base) {
+				continue
+			}
+			appends := map[*ssa.Call]bool{}
+			okAcc := true
+			seen := map[ssa.Value]bool{}
+			var walk func(v ssa.Value)
+			walk = func(v ssa.Value) {
+				if seen[v] || !okAcc {
+					return
+				}
+				seen[v] = true
+				switch t := v.(type) {
+				case *ssa.Phi:
+					for _, e := range t.Edges {
+						walk(e)
+					}
+				case *ssa.MakeSlice:
+					if k, isK := constInt(t.Len); !isK || k != 0 || inLoop(li, t.Block()) {
+						okAcc = false
+					}
+				case *ssa.Call:
+					if builtinName(t) != "append" || len(t.Call.Args) != 2 || !inLoop(li, t.Block()) {
+						okAcc = false
+						return
+					}
+					if n, ok := lenBound(t.Call.Args[1], t.Block(), 0); !ok || n != 1 {
+						okAcc = false
+						return
+					}
+					appends[t] = true
+					walk(t.Call.Args[0])
+				default:
+					okAcc = false
+				}
+			}
+			walk(call.Call.Args[0])
+			// a single append site executes at most once per iteration unless an inner loop encloses it
+			inner := false
+			for a := range appends {
+				for _, l2 := range loopsOf(cv.Parent()) {
+					if l2.header != li.header && li.header.Dominates(l2.header) && inLoop(l2, a.Block()) {
+						inner = true
+					}
+				}
+			}
+			if okAcc && len(appends) == 1 && !inner {
+				return "length of a slice that starts empty and grows by at most one element per iteration of a range over an enum values table: len <= range key <= 254 (len(values) <= 255 by R34)"
+			}
+		}
+	}
 	// enumVal(len(values)) in newEnumVal: callers guard len(values) < maxCardinality (R34)
 	if call, ok := cv.X.(*ssa.Call); ok && builtinName(call) == "len" {
 		if f, _ := fieldOf(call.Call.Args[0]); f != nil && f.Name() == "values" {
